@@ -431,7 +431,7 @@ func (c *Ctx) cod9(which map[string]bool) {
 			if fn == nil {
 				continue
 			}
-			for _, b := range fn.Blocks {
+			for _, b := range c.regionBlocks(fn) {
 				for _, ins := range b.Instrs {
 					call, ok := ins.(*ssa.Call)
 					if !ok || !call.Call.IsInvoke() || recvTypeName(call.Call.Method) != "Persistence" {
